@@ -215,7 +215,7 @@ class Prov:
 
     def local(self, fn, l, site=None):
         defs = self.defs(fn).get(l, [])
-        nsrc = len(defs) + (1 if 1 <= l <= fn.arg_count else 0)
+        nsrc = len(defs) + (1 if 1 <= l <= fn.arg_count else 0) + len(self.mut_index(fn).get(l, []))
         if nsrc <= 1:
             site = None
         key = (fn.key, l, site)
